@@ -15,4 +15,57 @@ CHECKS = {
                 'which pass the switch through unchanged.',
     },
 }
+CHECKS.update({
+    'C14': {
+        'text': 'Finite module invariant: about 1400 ground obligations compare every attribute of the 64 classes reachable through '
+                'INDEX_MAPPING and of Basic.Properties (ids, index, name, slots, wire types, sync flag, replies, constructor and '
+                'documented defaults, flag bits) with an independently transcribed specification table; exhaustive.',
+        'design_ref': 'DESIGN.md 4 C14',
+        'note': 'Trusted: the hand-transcribed table spec/tables.py (written from the AMQP 0-9-1 + RabbitMQ method catalogue, never '
+                'imports pamqp). Values are concrete, so obligations are decided by evaluation on the freshly imported real module; '
+                'tools/codegen.py is not executed.',
+        'technique': 'ground obligations over the imported real module against a transcribed specification table (exhaustive)',
+    },
+    'C17': {
+        'text': 'Finite module invariant: 18 reply codes x (mapping, value, name, soft xor hard base, common base, instance) and the '
+                'protocol constants, as ground obligations against a transcribed table; exhaustive.',
+        'design_ref': 'DESIGN.md 4 C17',
+        'note': 'Trusted: the transcribed reply-code table in spec/tables.py.',
+        'technique': 'ground obligations over the imported real module against a transcribed specification table (exhaustive)',
+    },
+    'C06': {
+        'text': 'frame.unmarshal is verified against a total contract over an arbitrary byte string (12 clauses) and an envelope '
+                'clause (whenever it returns: count = size + 8 <= len, last consumed octet 0xCE, channel and kind from the header; '
+                'protocol header only after AMQP); a ghost lemma shows that appending any bytes to a buffer that decodes completely '
+                'changes neither result nor count and leaves exactly the appended bytes. All byte strings, no length bound.',
+        'design_ref': 'DESIGN.md 4 C06',
+        'note': COMMON_NOTE + 'The method and content-header payload decoders enter frame.unmarshal through their total contracts; '
+                'object equality across the two calls of the lemma is shown for body, heartbeat and protocol header, and kind, '
+                'channel and count for all kinds.',
+    },
+    'C07': {
+        'text': 'Ghost lemma over the total contract of frame.unmarshal: for the protocol header and for every frame header with '
+                'type in {1,2,3} and size >= 1 or the heartbeat, every cut point (8 + 7 concrete header cuts, and a symbolic cut '
+                'inside payload + end octet) raises UnmarshalingException; plus the envelope clause that no successful decode '
+                'reports more octets than supplied.',
+        'design_ref': 'DESIGN.md 4 C07',
+        'note': COMMON_NOTE + 'The received part of the payload is an arbitrary byte string (stronger than a prefix of a valid payload).',
+    },
+    'C18': {
+        'text': 'Contracts for ContentBody (init, len, marshal, unmarshal), Heartbeat.marshal, ProtocolHeader (init, marshal, '
+                'unmarshal), frame._marshal, frame.marshal and frame.unmarshal are discharged from the real AST; four ghost lemmas '
+                'compose them into the round trips for every payload of length 1..2^32-1 (an opaque byte string, so 0xCE / AMQP '
+                'look-alikes are covered), every channel, every trailing byte string and all 256^3 version triples.',
+        'design_ref': 'DESIGN.md 4 C18',
+        'note': COMMON_NOTE,
+    },
+    'C20': {
+        'text': 'frame_parts is verified against its contract for an arbitrary byte string (unsigned big-endian type, channel, size; '
+                '(0, 0, None) below 7 octets, no exception); lemmas show that for every frame built by the low-level encoder the '
+                'peeked size + 8 is the frame length, and that the decoder accepts exactly size + 8 octets on the peeked channel '
+                '(body frames; other kinds through the total contract of frame.unmarshal).',
+        'design_ref': 'DESIGN.md 4 C20',
+        'note': COMMON_NOTE,
+    },
+})
 NOT_APPLICABLE = {}
